@@ -33,7 +33,8 @@ func DialWebsocket(ctx context.Context, urlStr string, requestHeader http.Header
 	}
 
 	t := &websocketTransport{conn: conn, c: SessionCompressionNone}
-	if strings.HasPrefix(urlStr, "wss:") {
+	// URL schemes are case-insensitive: the dialer connects over TLS for "WSS://" as well
+	if strings.HasPrefix(strings.ToLower(urlStr), "wss:") {
 		t.e = SessionEncryptionTLS
 	} else {
 		t.e = SessionEncryptionNone
